@@ -304,11 +304,11 @@ def main():
         # (3) the loop from the state the last iteration of the DEFAULT while_loop started from
         if k >= 1:
             p = r["prev"]
-            add(i, "loop", f"c19b_loop 2%nat {common(c)} {nat(c['maxiter'])} {t2} {blist(p['x'])} "
+            add(i, "loop", f"c19b_loop 1%nat {common(c)} {nat(c['maxiter'])} {t2} {blist(p['x'])} "
                            f"{blist(p['fx'])} {blist(p['dx'])} {nat(p['iters'])}")
         else:
             fx0 = [eval_poly(p_, c["x0"]) for p_ in c["polys"]]
-            add(i, "loop", f"c19b_loop 1%nat {common(c)} {nat(c['maxiter'])} {t2} {blist(c['x0'])} "
+            add(i, "loop", f"c19b_loop 0%nat {common(c)} {nat(c['maxiter'])} {t2} {blist(c['x0'])} "
                            f"{blist(fx0)} {blist([1] * D)} 0%nat")
         # (4) affine: the complete routine and the Gaussian conditional mean
         if c["kind"] == "affine":
